@@ -133,6 +133,24 @@ def run(ctx):
     ctx.floor("C19.Z4", "fields of uci::Data", len(fields), 2)
     ctx.check("C19.Z4", "ucinewgame-always-resets", arm is not None and not conditional, fn="uci::uci_talk", file=nf["file"],
               what="the reset must not be conditional", found={"arm found": arm is not None, "conditional": conditional})
+    # ... and the reset is final: nobody else replaces the table object (a search thread that took the table out of the session
+    # state and stores it back when it ends can do so after a `ucinewgame` and bring the old entries back)
+    from .common import field_writes
+    tfields = [f["name"] for f in data["variants"][0]["fields"] if "TableEntry" in str(f.get("ty")) or "TranspositionTable" in str(f.get("ty"))]
+    ok_writers = ("uci::command_ucinewgame", "uci::uci_talk", "uci::Data::new", "uci::Data::default")
+    bad = []
+    n_w = 0
+    for tf in tfields:
+        for w in field_writes(F, "uci::Data", tf):
+            n_w += 1
+            root = w[0].split("::{closure")[0]
+            if w[2] == "assign" and not w[0].startswith(ok_writers):
+                bad.append((tf, w[0], w[2]))
+    ctx.check("C19.Z4", "table-replaced-only-by-the-reset", bool(tfields) and not bad, fn=bad[0][1] if bad else "uci::Data", file="src/uci.rs",
+              what="the transposition table of the session is replaced as a whole outside `ucinewgame`: a search that ends after the "
+                   "reset hands its old table back and later searches see entries from before the reset",
+              expected="whole-value writes of Data.<table> only in the ucinewgame handler / constructors", found=bad)
+    ctx.floor("C19.Z4", "writers of the session's table field", n_w, 1)
     # Z5
     drv = F.fn("search::get_best_move_until_stop")
     want_inputs = ["&chess::Game", "&mut std::collections::HashMap<u64, search::TableEntry", "&std::sync::atomic::Atomic<bool>", "std::option::Option<u8>"]
